@@ -211,6 +211,21 @@ func specSameWords(a, b message.Ssid) bool {
 
 // Send: a message reaches the client as ONE QoS-0 PUBLISH whose topic is the message's channel and whose payload
 // is the message's payload - both unchanged (C02: "with channel (key stripped) and payload unchanged").
+// Links (C02: a publish through a link's short name is a publish to the linked channel - WITH the options the link
+// was made with: `me=0` is what keeps the publisher out of its own fan-out, `ttl` what gets the message stored).
+// AddLink records the channel's full text (Channel.String: key, channel and options), GetLink gives back exactly
+// what was recorded for a short name and the topic itself for anything longer than two bytes.
+// @ verify (*Conn).AddLink pre=pre_Conn_AddLink post=post_Conn_AddLink props=C02,C11
+// @ assume (*github.com/emitter-io/emitter/internal/security.Channel).String iface for=AddLink
+func pre_Conn_AddLink(c *Conn, channel *security.Channel) bool {
+	return c != nil && c.links != nil && channel != nil
+}
+func post_Conn_AddLink(c *Conn, alias string, channel *security.Channel) bool {
+	t := vs.TraceFind("Channel).String")
+	return vs.TraceLen() == 1 && t == 0 && vs.TraceArg[*security.Channel](t, 0) == channel &&
+		vs.Has(c.links, alias) && c.links[alias] == vs.TraceRet[string](t, 0)
+}
+
 // @ verify (*Conn).Send pre=pre_Conn_Send post=post_Conn_Send props=C02
 func pre_Conn_Send(c *Conn, m *message.Message) bool { return c != nil && m != nil && c.socket != nil }
 func post_Conn_Send(c *Conn, m *message.Message, res0 error) bool {
